@@ -8,7 +8,8 @@ import sys
 HERE = os.path.dirname(os.path.abspath(__file__))
 VERIF = os.path.dirname(HERE)
 sys.path.insert(0, HERE)
-from registry import PROPS  # noqa: E402
+from registry import PROPS as _ALL, PENDING  # noqa: E402
+PROPS = {k: v for k, v in _ALL.items() if k not in PENDING}
 
 TECHNIQUE = ("bounded model checking of the real code: Kani 0.68 compiles /repo's btdht crate to a CBMC goto program, "
              "inputs/clock/random draws symbolic (kani::any), property = assert!, verdict by CBMC 6.11 + CaDiCaL SAT over all "
@@ -77,7 +78,33 @@ CLAIMS["C13"] = dict(
     note="serde in-memory deserializers replace the bencode text parser (not encodable, DESIGN.md F8/F14); lists <= 2 entries.",
 )
 
+CLAIMS["C17"] = dict(
+    text=("Codec-level only: for every number of values up to the limit the code enforces for the requester's family "
+          "(handler::MAX_VALUES_V4 / MAX_VALUES_V6, read from the crate), up to 8 nodes per family, a 20-byte token and every "
+          "transaction id length up to 32, the closed-form bencoded size of the get_peers reply is <= 1500 (solver, pure integers). "
+          "The closed form itself is validated against the real encoder natively on pseudo-random replies (sampling, stated as such). "
+          "That the handler applies these limits on the reply path is NOT decided (handler.rs is outside the engine's reach)."),
+    note="Trusted: the size formula (validated natively each run), the handler applying take(max_values)/take(8). The pinned tree had no limit at all (genuine defect, fixed: e406166).",
+)
+CLAIMS["C14"] = dict(
+    text=("Piece A: btdht's structural pre-check (bencode::check_structure, added by the fix for the genuine defect) is decided on every "
+          "byte string of 8 (quick) / 12 and 16 (thorough) bytes against a reference lexer that mirrors the library's tokenisation: an accepted input never "
+          "declares a string longer than the remaining input nor nests deeper than MAX_DEPTH, with no panic, overflow or out-of-bounds; length "
+          "prefixes of 1, 2, 20 and 21 symbolic digits (every magnitude up to and beyond 2^64) and 33/40-level nesting bombs are rejected; "
+          "canonical encodings of valid messages are accepted. Piece B: btdht's own compact decoders return Ok/Err without panic on every "
+          "boundary length. No claim for arbitrary 1500-byte strings through the library's lexer (not encodable, DESIGN.md F8/F14/F20)."),
+    note="Trusted: that the bencode library allocates exactly the declared string length and recurses per nesting level (read from its source); Kani's default checks provide no-panic/no-overflow/no-OOB.",
+)
+CLAIMS["C12"] = dict(
+    text=("Table kernel only: one add_nodes(responder, names) on a directly built 2-bucket table with arbitrary standings: names are "
+          "admitted at most as questionable, never upgrade a stored node, the local id and router addresses never appear, shape invariant "
+          "kept; transaction ids are accepted only at 8 bytes. The handler-side clauses (queries never add their sender; responses routed "
+          "by action prefix) are NOT decided."),
+    note="handler.rs is outside the engine's reach (F7); table built directly with concrete identities (F21); RandomState stubbed with zero keys.",
+)
+
 NOT_APPLICABLE = {
+    "C12": "the table-kernel harnesses (add_nodes on a directly built table) have not terminated within the tier cap yet; the handler-side clauses are out of reach anyway (F7)",
     "C01": "needs >=2 complete nodes (tokio runtime, spawned bootstrap task, UDP, 24 h of timers); a tokio runtime cannot be compiled by Kani (compiler panic on catch_unwind intrinsic) and DhtHandler does not terminate in CBMC (DESIGN.md F6/F7)",
     "C11": "hours of handler + refresh + timer + bootstrap under a runtime (F6/F7); no sequential kernel carries the claim",
     "C15": "the bootstrap task is task::spawn + tokio::time::sleep + select! + watch/Responded futures; none of it compiles under Kani (F6)",
